@@ -180,6 +180,16 @@ class FunctionDefinition:
     _known_definitions: dict[int, tuple[FunctionDefinition, Any]] = {}
 
     @staticmethod
+    def _discard_known_definitions():
+        for _, obj in FunctionDefinition._known_definitions.values():
+            if inspect.iscoroutine(obj):
+                # only the source code of the coroutine was used,
+                # close it to avoid a 'never awaited' warning
+                obj.close()
+
+        FunctionDefinition._known_definitions.clear()
+
+    @staticmethod
     def from_ast_body(
         fn: list[ast.stmt],
         name: str,
